@@ -2,10 +2,10 @@
 # tools/verify_seeds.sh [ids...]: every kept seeded change must (a) still apply to /repo HEAD, (b) be reported by the quick check.
 cd /repo; ids=${@:-$(ls /verif/seeded)}
 for id in $ids; do
-  wt=/var/tmp/seedwt-$id; rm -rf $wt; git worktree prune
+  wt=/var/tmp/seedwt-$id; prop=${id%%-*}; rm -rf $wt; git worktree prune
   git worktree add -q --detach $wt HEAD || { echo "$id worktree failed"; continue; }
   if ! git -C $wt apply /verif/seeded/$id/patch.diff 2>/dev/null; then echo "$id PATCH-DOES-NOT-APPLY"; git worktree remove --force $wt; continue; fi
-  (cd /verif && VF_REPO=$wt bin/check $id > /var/tmp/seedcheck-$id.log 2>&1); rc=$?
+  (cd /verif && VF_REPO=$wt bin/check $prop > /var/tmp/seedcheck-$id.log 2>&1); rc=$?
   echo "$id check_rc=$rc $(grep -c '^VIOLATION' /var/tmp/seedcheck-$id.log) violation lines"
   git worktree remove --force $wt
 done
